@@ -171,7 +171,9 @@ SimNext == SimCand \/ SimLong \/ SimShort \/ SimCell \/ SimDone
 (* ---- export and design-level clauses ----------------------------------------------------------------------------------- *)
 SetSeq(S) == LET RECURSIVE ToSeq(_) ToSeq(T) == IF T = {} THEN <<>> ELSE LET m == CHOOSE x \in T : \A y \in T : x <= y IN <<m>> \o ToSeq(T \ {m}) IN ToSeq(S)
 ExpFlips(r) == [fq |-> r.fq, rw |-> [x \in DOMAIN r.rw |-> SetSeq(r.rw[x])], wr |-> r.wr, long |-> r.long, short |-> r.short]
-Export == IF ExportOn /\ stage' = <<"done">> THEN PrintT(ToJson([pop |-> pop', expect |-> ExpFlips(res')])) ELSE TRUE
+Export == IF ExportOn /\ stage' = <<"done">>
+          THEN PrintT(ToJson([fam |-> IF stage = <<"seed">> THEN pop[1] ELSE "sim", pop |-> pop', expect |-> ExpFlips(res')]))
+          ELSE TRUE
 
 Done == stage = <<"done">>
 ObsOf == [fq |-> res.fq, rw |-> res.rw, wr |-> res.wr]
@@ -179,7 +181,9 @@ InvDomain            == Done => PopInDomain(pop)
 InvOnlyAssigned      == Done => PopOnlyAssigned(pop, ObsOf)
 InvReportLimit       == Done => PopReportLimit(pop, ObsOf)
 InvRewardOnlyReported == Done => PopRewardOnlyReported(pop, ObsOf)
+InvReportersRewarded == Done => PopReportersRewarded(pop, ObsOf)
 InvGradeConsistent   == Done => PopGradeConsistent(pop, ObsOf)
+InvReportHonoured    == Done => PopReportHonoured(pop, ObsOf)
 InvAnswerBacked      == Done => PopAnswerBacked(pop, ObsOf)
 InvConsensusHonoured == Done => PopConsensusHonoured(pop, ObsOf)
 CandClauses(C, o) == /\ CandInDomain(C) /\ CandNoAnswerNoPoint(C, o) /\ CandScoreInRange(C, o) /\ CandPointJustified(C, o)
